@@ -223,7 +223,7 @@ func (d *drv) genOp(v view) op {
 		}
 		bz := chain.SignTx(d.w.ChainID, from, chain.MsgSend(from.Addr, to.Addr, amt), fee, d.entropy(), "")
 		return op{kind: "ext-send", bytes: bz, pre: "tx ext send"}
-	case c < 97 || !d.keeper: // governance parameter change
+	case c < 95 || !d.keeper: // governance parameter change
 		key, val := "application/MaxApplications", interface{}(v.count+int64(r.Intn(4))-1)
 		switch r.Intn(9) {
 		case 0, 1, 2:
@@ -251,6 +251,24 @@ func (d *drv) genOp(v view) op {
 			k = pick(r, append(append([]chain.Key{}, v.staked...), v.unst...), d.keys)
 		}
 		apk := d.n.App.VerifAppsKeeper()
+		switch r.Intn(4) {
+		case 0:
+			return op{kind: "keeper-unjail", pre: "keeper unjail " + k.Addr.String(), keep: func(ctx sdk.Context) string {
+				apk.UnjailApplication(ctx, k.Addr)
+				return "-"
+			}}
+		case 1:
+			// jail + unjail, preferably of an unstaking application: SetApplication appends its address to the
+			// unstaking-queue slot on every call, so the slot then holds the address several times
+			if len(v.unst) > 0 {
+				k = v.unst[r.Intn(len(v.unst))]
+			}
+			return op{kind: "keeper-requeue", pre: "keeper requeue " + k.Addr.String(), keep: func(ctx sdk.Context) string {
+				apk.JailApplication(ctx, k.Addr)
+				apk.UnjailApplication(ctx, k.Addr)
+				return "-"
+			}}
+		}
 		if r.Bool() {
 			return op{kind: "keeper-jail", pre: "keeper jail " + k.Addr.String(), keep: func(ctx sdk.Context) string {
 				apk.JailApplication(ctx, k.Addr)
